@@ -47,11 +47,25 @@ pub(crate) fn check_variable_values(
     registry: &Registry,
     operation: &crate::parser::types::OperationDefinition,
     variables: &Variables,
+    mode: ValidationMode,
 ) -> Result<(), Vec<ServerError>> {
     let mut errors = Vec::new();
     for def in &operation.variable_definitions {
         let name = &def.node.name.node;
         match variables.get(name) {
+            // Fast mode leaves the shape of values to the resolvers' own parsing,
+            // as it does for arguments; only nullability is checked here.
+            Some(value) if matches!(mode, ValidationMode::Fast) => {
+                if !def.node.var_type.node.nullable && *value == crate::Value::Null {
+                    errors.push(ServerError::new(
+                        format!(
+                            r#"Invalid value for variable "{}", expected type "{}""#,
+                            name, def.node.var_type.node
+                        ),
+                        Some(def.pos),
+                    ));
+                }
+            }
             Some(value) => {
                 if let Some(reason) = utils::is_valid_input_value(
                     registry,
